@@ -196,6 +196,26 @@ pub fn run(o: &Opts) {
       srcs.push(deep);
       // a very long line before a multi-line construct
       srcs.push(format!("{}{}", "x".repeat(600), s0));
+      // the edge of the 512-unit look-behind window: a multi-line construct that starts 512 bytes after a blank on
+      // its own (long) line - the line's indentation is not known there (0), whatever sits at the window's edge
+      {
+        let sg0 = corpus::parse(lang, &s0);
+        let mut starts: Vec<usize> = vec![];
+        for n in corpus::all_nodes(sg0.root()) {
+          if n.is_named() && n.text().contains('\n') && n.range().len() < 1200 && !starts.contains(&n.range().start) && starts.len() < 3 {
+            starts.push(n.range().start);
+          }
+        }
+        for st in starts {
+          let line_start = s0[..st].rfind('\n').map(|p| p + 1).unwrap_or(0);
+          for blanks in [1usize, 3] {
+            // [line start] y; <blanks> x*(511-blanks) <one blank> [construct]: the construct starts 512 bytes after the first blank
+            let v = format!("{}y;{}{} {}", &s0[..line_start], " ".repeat(blanks), "x".repeat(511 - blanks), &s0[st..]);
+            srcs.push(v);
+            out.count("source:construct-512-bytes-after-a-blank");
+          }
+        }
+      }
     }
     for src in &srcs {
       let sg = corpus::parse(lang, src);
